@@ -3,7 +3,7 @@
    PARTIAL for the re-parse clause: that parsing the displayed text yields the same executable lines, wants and
    modes is checked on the implementation for every generated doctest (it needs the tokenizer); what is proved is
    that the displayed lines ARE the parsed lines, and what every displayed number is. *)
-From XD Require Import Model.Base Model.Parser Model.Text Model.Format Spec.Partition Spec.Labels Proofs.FormatProofs Proofs.Reparse.
+From XD Require Import Model.Base Model.Parser Model.Text Model.Format Spec.Partition Spec.Labels Proofs.FormatProofs Proofs.GroupLocal Proofs.Reparse.
 
 (* without colours or numbers, with or without prompts and wants: each source line and each want line of each part,
    once and in order (for parts whose lines hold no line-break characters) *)
@@ -71,6 +71,20 @@ Theorem C18_reparse_partial : forall o ind exs s items off lineno,
   parse o (format_src (parts_of items) false true off true false lineno) = Parsed items.
 Proof. exact reparse_displayed. Qed.
 Print Assumptions C18_reparse_partial.
+(* the same with prose BEFORE and AFTER the run of examples (the usual docstring: summary, examples, closing remarks; the
+   examples may be indented): the display is the examples' lines, and parsing it again yields the same parts, each with
+   its line offset counted from the first displayed line.  Still missing: prose BETWEEN examples *)
+Theorem C18_reparse_prose_around_partial : forall o ind exs p0 p1 s items off lineno,
+  AstInRange o -> exs <> [] -> Forall (fun e => ex_ind e = ind) exs ->
+  Chain (o_bal o) TEXT O (BProse p0 :: map BEx exs ++ [BProse p1]) ->
+  splitlines (normalize_docstring s) = concat (map block_lines (BProse p0 :: map BEx exs ++ [BProse p1])) ->
+  Forall LineOK (exs_lines (map ex0 exs)) ->
+  parse o s = Parsed items ->
+  format_src (parts_of items) false true off true false lineno = join_nl (exs_lines (map ex0 exs)) /\
+  exists items', parse o (format_src (parts_of items) false true off true false lineno) = Parsed items' /\
+                 parts_of items = map (shift (length p0)) (parts_of items').
+Proof. exact reparse_prose_around. Qed.
+Print Assumptions C18_reparse_prose_around_partial.
 (* grouping and packaging look at labels and de-indented lines only (what the re-parse rests on) *)
 Theorem C18_grouping_ignores_text_of_lines : forall g ll,
   group_lines (map (on_snd g) ll) = res_map (map (chunk_map g)) (group_lines ll).
@@ -80,3 +94,8 @@ Theorem C18_packaging_ignores_indentation : forall o ind src want n, Forall (Ind
   package_chunk o (map (skipn ind) src) (map (skipn ind) want) n = package_chunk o src want n.
 Proof. exact package_chunk_dedent. Qed.
 Print Assumptions C18_packaging_ignores_indentation.
+(* ... and at the line a chunk starts on only to number its parts *)
+Theorem C18_packaging_offsets_relative : forall o s w k n,
+  package_chunk o s w (k + n) = GroupLocal.res_map (map (shift k)) (package_chunk o s w n).
+Proof. exact package_chunk_shift. Qed.
+Print Assumptions C18_packaging_offsets_relative.
